@@ -461,6 +461,20 @@ def check(case, ctx):
             g = None
         if g != sum(want_infl.values()):
             ctx.violation("avg_sensitivity", f"avg_sensitivity({n!r}) = {r}, exact value {sum(want_infl.values())}")
+    if len(sp) <= 4 and len(cd["nodes"]) % 2 == 0:
+        # "ns : str or list of str": a list with ONE node is a list - the result is keyed by node
+        one = [n] if len(cd["edges"]) % 2 else (n,)
+        ok, r = ctx.call(cg.props.influence, c, one, approx=False)
+        ctx.count("cmp:influence_of_one_element_list")
+        if not ok:
+            ctx.violation("influence_raised", f"influence({one!r}, approx=False) raised {r!r}")
+        elif not isinstance(r, dict) or set(r) != {n} or not isinstance(r[n], dict) or {s: Fraction(v) for s, v in r[n].items()} != want_infl:
+            ctx.violation("influence_list", f"influence({one!r}) = {r}, expected one entry for {n!r} holding { {s: str(v) for s, v in want_infl.items()} }")
+        ok, r = ctx.call(cg.props.avg_sensitivity, c, one, approx=False)
+        if not ok:
+            ctx.violation("avg_sensitivity_raised", f"avg_sensitivity({one!r}, approx=False) raised {r!r}")
+        elif not isinstance(r, dict) or set(r) != {n} or Fraction(r[n]) != sum(want_infl.values()):
+            ctx.violation("avg_sensitivity", f"avg_sensitivity({one!r}) = {r}, expected {{{n!r}: {sum(want_infl.values())}}}")
 
 
     # ------------------------------------------------------------ several nodes in one call
@@ -502,7 +516,7 @@ def gates(counters, table, tier):
     for s in (1, 2, 3, 4, 5, 6, 7, 8):
         if counters.get(f"cone_startpoints:{s}", 0) < 3:
             out.append(f"cone with {s} startpoints seen {counters.get(f'cone_startpoints:{s}', 0)} times")
-    for k in ("mode:input", "mode:const_fn", "mode:output", "explicit_endpoints", "sens_impossible", "sens_possible", "sensitize_none", "sensitize_found", "sensitivity:0", "cmp:influence", "cmp:influence_of_two_nodes", "cmp:sensitivity_transform", "x_constant_outside_the_cone", "popcount_block_edited_before_analysis", "requery_after_count_preserving_rewire", "sole_output_with_input_outside_cone", "cmp:influence_11plus_startpoints", "startpoints_named_like_indexed_copies", "mode:const_node"):
+    for k in ("mode:input", "mode:const_fn", "mode:output", "explicit_endpoints", "sens_impossible", "sens_possible", "sensitize_none", "sensitize_found", "sensitivity:0", "cmp:influence", "cmp:influence_of_two_nodes", "cmp:sensitivity_transform", "x_constant_outside_the_cone", "popcount_block_edited_before_analysis", "requery_after_count_preserving_rewire", "sole_output_with_input_outside_cone", "cmp:influence_11plus_startpoints", "cmp:influence_of_one_element_list", "startpoints_named_like_indexed_copies", "mode:const_node"):
         if counters.get(k, 0) < 5:
             out.append(f"{k} seen {counters.get(k, 0)} times")
     return out
